@@ -7,7 +7,7 @@ Model of plasTeX's user-macro machinery, mirroring the Python as written:
 * `collectNewcommand`/`invokeNewcommand` = `NewCommand.invoke`
 * `matchPattern`/`invokeDef` = `Definition.invoke` (after the D8 `fix:` commit: a delimited
   argument that is exactly one group loses its braces; `matchPatternAsIs` is the pinned variant)
-* `hasNested`/`stripHashes`/`readDefParts` = `DefCommand.invoke`
+* `readDefParts` = `DefCommand.invoke` (after the D52 fix: no removal of `#` levels any more)
 * `Env` operations    = `Context.newdef/newcommand/let/__getitem__` on a stack of frames
 * `next`/`run`         = the expansion loop `TeX.__iter__` with `pushTokens`, and the primitives
   `\def \gdef \newcommand \renewcommand \let \csname \expandafter \relax`, `{ }`, `\begingroup \endgroup`.
@@ -205,7 +205,8 @@ def matchPatternAsIs (args : List Tok) (s : List Tok) : Except Err (Params × Li
 
 /-- `Definition.invoke` : (pushed-back expansion, rest of the stream) -/
 def invokeDefWith (strip : Bool) (args body : List Tok) (s : List Tok) : Except Err (List Tok × List Tok) :=
-  if args = [] then .ok (body, s)
+  -- no parameter text: `expandDef(self.definition, [None])` (after the D52 fix: `##` becomes `#` here too)
+  if args = [] then (substBody body [none]).map (·, s)
   else match matchGo strip args false false [none] s with
     | .error e => .error e
     | .ok (ps, rest) => (substBody body ps).map (·, rest)
@@ -215,31 +216,7 @@ def invokeDefAsIs := invokeDefWith false
 
 /-! ## DefCommand.invoke -/
 
-/-- "See if this definition has nested parameters" -/
-def hasNested : List Tok → Bool
-  | [] => false
-  | [_] => false
-  | t :: u :: us => if t.isParam then (if u.isParam then true else hasNested us) else hasNested (u :: us)
-
 def Tok.isEl : Tok → Bool | .el _ => true | _ => false
-
-/-- the same scan as it runs in Python: it reads `t.CC_PARAMETER` of every token it visits, an attribute that an
-    expanded macro instance travelling in the token stream does not have (`AttributeError`) -/
-def hasNestedE : List Tok → Except Err Bool
-  | [] => .ok false
-  | [t] => if t.isEl then .error .attributeError else .ok false
-  | t :: u :: us =>
-    if t.isEl then .error .attributeError
-    else if t.isParam then
-      (if u.isEl then .error .attributeError else if u.isParam then .ok true else hasNestedE us)
-    else hasNestedE (u :: us)
-
-/-- "get rid of one level of #s": a run of ≥ 2 `#` followed by another token loses its last `#` -/
-def stripHashes : Nat → List Tok → List Tok → List Tok
-  | _, acc, [] => acc.reverse
-  | n, acc, t :: ts =>
-    if t.isParam then stripHashes (n + 1) (t :: acc) ts
-    else stripHashes 0 (t :: (if n > 1 then acc.tail else acc)) ts
 
 /-- type `Tok` argument: optional blanks, then the next raw token -/
 def readTok (s : List Tok) : Option Tok × List Tok :=
@@ -268,14 +245,7 @@ def readDefParts (s : List Tok) : Except Err DefParts :=
   | some t =>
     -- a character token in the name position is a DOM text node: its `nodeName` is "#text"
     let nm := match t with | .ch _ _ => [35, 116, 101, 120, 116] | .cs nm => nm | .el nm => nm
-    match hasNestedE a.1 with
-    | .error e => .error e
-    | .ok nested =>
-    if nested then
-      match d.1 with
-      | none => .error .typeError          -- `for t in a['definition']` on `None`
-      | some b => .ok ⟨nm, stripHashes 0 [] a.1, some (stripHashes 0 [] b), d.2⟩
-    else .ok ⟨nm, a.1, d.1, d.2⟩
+    .ok ⟨nm, a.1, d.1, d.2⟩
 
 /-! ## Context: frames of macro classes -/
 
@@ -501,9 +471,8 @@ def expandOnce (fx : Bool) : Nat → Name → List Tok → Env → Except Err (L
         match invokeDef args (body.getD []) rest with
         | .error e => .error e
         | .ok (exp, rest') =>
-          -- `if expanded is None: expanded = [aftertok]` (after the fix: an empty expansion stays empty);
-          -- `Definition.invoke` returns `None` only for a parameterless macro without stored text
-          .ok (if args = [] ∧ body = none then [.el name] else exp, ⟨rest', env⟩)
+          -- `if expanded is None: expanded = [aftertok]`: `Definition.invoke` never returns `None` (an empty expansion stays empty)
+          .ok (exp, ⟨rest', env⟩)
       | .newcmd nargs opt body =>
         match invokeNewcommand nargs opt (body.getD []) rest with
         | .error e => .error e
